@@ -29,6 +29,57 @@ TRUSTED = ['C18/CisQ.v as an approximation of exp(i pi a), pi and sqrt(2 pi) at 
            'np.fft / pyfftw / PyWavelets numerics (external; compared, not proved)']
 
 
+# ------------------------------------------------- variant switches (measured)
+_VAR = None
+
+
+def variants():
+    """Which recorded defects the CURRENT code exhibits, measured on their own repro inputs."""
+    global _VAR
+    if _VAR is not None:
+        return _VAR
+    import odl
+    v = {}
+    with warnings.catch_warnings():
+        warnings.simplefilter('ignore')
+        sp = odl.uniform_discr(0, 1, 4)
+        y = np.fft.fft([1.0, 2, 3, 4])
+        try:
+            odl.trafos.DiscreteFourierTransformInverse(sp, halfcomplex=False, impl='pyfftw')(y)
+            v['dft_real_pyfftw'] = False
+        except ValueError:
+            v['dft_real_pyfftw'] = True
+        sp5 = odl.uniform_discr(0, 1, 5)
+        try:
+            odl.trafos.DiscreteFourierTransformInverse(sp5, halfcomplex=True, impl='numpy')(
+                np.fft.rfft([1.0, 2, 3, 4, 5]))
+            v['dft_hc_odd_numpy'] = False
+        except ValueError:
+            v['dft_hc_odd_numpy'] = True
+        try:
+            ft = odl.trafos.FourierTransform(sp, halfcomplex=False, shift=False, impl='pyfftw')
+            ft.inverse(ft(sp.one()))
+            v['ft_real_unshifted_pyfftw'] = False
+        except TypeError:
+            v['ft_real_unshifted_pyfftw'] = True
+        sp2 = odl.uniform_discr([0, 0], [1, 1], (4, 5))
+        try:
+            odl.trafos.FourierTransform(sp2, halfcomplex=True, shift=(False, True), impl='numpy')
+            v['ft_hc_needs_all_shifts'] = False
+        except ValueError:
+            v['ft_hc_needs_all_shifts'] = True
+    _VAR = v
+    return v
+
+
+def var_lit():
+    v = variants()
+    return ('{| v_dft_real_pyfftw := %s; v_dft_hc_odd_numpy := %s; v_ft_real_unshifted_pyfftw := %s; '
+            'v_ft_hc_needs_all_shifts := %s |}'
+            % (C.b(v['dft_real_pyfftw']), C.b(v['dft_hc_odd_numpy']), C.b(v['ft_real_unshifted_pyfftw']),
+               C.b(v['ft_hc_needs_all_shifts'])))
+
+
 # ----------------------------------------------------------------- literals
 def cq(zv):
     zv = complex(zv)
@@ -204,9 +255,9 @@ def dft_cases(rng, tier):
             outt = _err_kind(e)
         sgz = -1 if sg == '-' else 1
         term = ('{| d_shape := %s; d_axes := %s; d_sg := %s; d_hc := %s; d_inv := %s; d_defrange := %s; '
-                'd_real := %s; d_pyfftw := %s; d_x := %s; d_out := %s; d_tol := %s |}'
+                'd_real := %s; d_pyfftw := %s; d_var := %s; d_x := %s; d_out := %s; d_tol := %s |}'
                 % (nats(shape), nats(axes), C.z(sgz), C.b(hc), C.b(inv), C.b(defrange),
-                   C.b(dt.startswith('float')), C.b(impl == 'pyfftw'), cqs(xin), outt, C.q(_tol(dt))))
+                   C.b(dt.startswith('float')), C.b(impl == 'pyfftw'), var_lit(), cqs(xin), outt, C.q(_tol(dt))))
         desc = {'shape': shape, 'axes': axes, 'dtype': dt, 'sign': sg, 'halfcomplex': hc, 'inverse': inv,
                 'impl': impl, 'default_range': defrange, 'x': np.asarray(xin).ravel().tolist(),
                 'outcome': outt[:10]}
@@ -280,9 +331,9 @@ def ft_cases(rng, tier):
             xin = np.zeros(0)
         sgz = -1 if sg == '-' else 1
         term = ('{| t_grid := %s; t_axes := %s; t_shifts := %s; t_sg := %s; t_hc := %s; t_inv := %s; '
-                't_real := %s; t_pyfftw := %s; t_x := %s; t_out := %s; t_tol := %s |}'
+                't_real := %s; t_pyfftw := %s; t_var := %s; t_x := %s; t_out := %s; t_tol := %s |}'
                 % (axqs(dom.grid), nats(axes), bools(shifts), C.z(sgz), C.b(hc and real), C.b(inv), C.b(real),
-                   C.b(impl == 'pyfftw'), cqs(xin), outt, C.q(_tol(dt))))
+                   C.b(impl == 'pyfftw'), var_lit(), cqs(xin), outt, C.q(_tol(dt))))
         desc = {'shape': shape, 'axes': axes, 'shifts': shifts, 'dtype': dt, 'sign': sg, 'halfcomplex': hc,
                 'inverse': inv, 'impl': impl, 'min_pt': mins, 'cell_sides': sides,
                 'x': np.asarray(xin).ravel().tolist(), 'outcome': outt[:10]}
@@ -408,6 +459,26 @@ def _run(snippet):
         return bool(env.get('ok')), {'observed': env.get('observed'), 'expected': env.get('expected')}
     except Exception as e:   # a raising property evaluation is a failure
         return False, '%s: %s' % (type(e).__name__, str(e)[:200])
+
+
+class _GuardedHead(str):
+    """Snippet head whose last line constructs `ft`; head + body becomes
+    try: ft = ... except ValueError: ft = None / if ft is None: ok = True / else: body."""
+
+    def __add__(self, body):
+        lines = str(self).rstrip('\n').split('\n')
+        ctor = lines[-1]
+        pre = '\n'.join(lines[:-1]) + '\n'
+        ind = ''.join('    ' + ln + '\n' for ln in body.rstrip('\n').split('\n'))
+        return (pre + 'try:\n    ' + ctor + '\nexcept ValueError:\n    ft = None   # rejected at construction\n'
+                'if ft is None:\n    ok = True\nelse:\n' + ind)
+
+
+def _guarded(pre, ctor, body):
+    """pre; try: ctor except ValueError -> clause not applicable (ok = True); else body."""
+    ind = ''.join('    ' + ln + '\n' for ln in body.rstrip('\n').split('\n'))
+    return (pre + 'try:\n    ' + ctor + '\n    _rejected = False\nexcept ValueError:\n    _rejected = True\n'
+            'if _rejected:\n    ok = True   # combination rejected at construction\nelse:\n' + ind)
 
 
 def _probe(out, key, what, snippet):
@@ -543,6 +614,10 @@ def backend_probes(rng, tier, out):
                            "observed = float(max(np.abs(r - res[0]).max() for r in res)); expected = 0.0\n"
                            "ok = observed <= %r * (1 + np.abs(res[0]).max())\n"
                            % ([-1.0] * nd, [1.0] * nd, shape, dt, cls, kw, rng.randint(0, 10 ** 6), _tolf(dt)))
+                if key == 'ft-halfcomplex-unshifted-axis':
+                    lines = snippet.split('\n')
+                    k0 = [i for i, ln in enumerate(lines) if ln.startswith('ops = ')][0]
+                    snippet = _guarded('\n'.join(lines[:k0]) + '\n', lines[k0], '\n'.join(lines[k0 + 1:]))
                 _probe(out, key, '%s(%s) on shape %s dtype %s: numpy == pyfftw, out-of-place == in-place'
                        % (cls, kw, shape, dt), snippet)
 
@@ -576,6 +651,9 @@ def ft_probes(rng, tier, out):
                     "ft = odl.trafos.FourierTransform(dom, axes=%r, shift=%r, sign=%r, halfcomplex=%r, impl=%r)\n"
                     % (mins, [m + n * s for m, n, s in zip(mins, shape, sides)], shape, dt,
                        _arr_src(rng, shape, not real, dt), dt, axes, shifts, sg, hc, impl))
+            if real and unsh and hc:
+                # a constructor that rejects the combination makes the clause vacuous
+                head = _GuardedHead(head)
             cfg = 'shape=%s axes=%s shift=%s dtype=%s sign=%s halfcomplex=%s impl=%s' % (shape, axes, shifts, dt, sg,
                                                                                           hc, impl)
             _probe(out, key, 'ft.inverse(ft(x)) == x: ' + cfg,
@@ -638,6 +716,11 @@ def gaussian_probes(rng, tier, out):
                                "ok = errs[1] <= errs[0] / 3 and errs[2] <= errs[1] / 3 and errs[2] <= 5e-3\n"
                                % (sizes, [-8.0] * nd, [8.0] * nd, 'float64' if real else 'complex128',
                                   list(shifts), sg, hc, impl))
+                    if key == 'ft-halfcomplex-unshifted-axis':
+                        snippet = _guarded(_PRE, "odl.trafos.FourierTransform(odl.uniform_discr(%r, %r, %r), shift=%r, "
+                                           "sign=%r, halfcomplex=%r, impl=%r)"
+                                           % ([-8.0] * nd, [8.0] * nd, sizes[0], list(shifts), sg, hc, impl),
+                                           snippet[len(_PRE):])
                     _probe(out, key, 'FourierTransform of a Gaussian on [-8,8]^%d converges to the Gaussian '
                            '(shift=%s sign=%s halfcomplex=%s impl=%s)' % (nd, list(shifts), sg, hc, impl), snippet)
 
@@ -687,10 +770,12 @@ def wavelet_probes(rng, tier, out):
                            "W = odl.trafos.WaveletTransform(sp, %r, nlevels=%d, pad_mode=%r)\n"
                            "rs = np.random.RandomState(%d)\n"
                            "x = sp.element(rs.randint(-4, 5, %r).astype(float)); y = W.range.element(rs.randint(-4, 5, W.range.size).astype(float))\n"
-                           "lhs = W(x).inner(y); rhs = x.inner(W.adjoint(y))\n"
-                           "lhs2 = W.inverse(y).inner(x); rhs2 = y.inner(W.inverse.adjoint(x))\n"
-                           "observed = [float(lhs - rhs), float(lhs2 - rhs2)]; expected = [0.0, 0.0]\n"
-                           "ok = abs(lhs - rhs) <= 1e-9 * (1 + abs(lhs)) and abs(lhs2 - rhs2) <= 1e-9 * (1 + abs(lhs2))\n"
+                           "try:\n    A = W.adjoint; B = W.inverse.adjoint\nexcept NotImplementedError:\n    A = B = None   # no adjoint is returned: nothing to check\n"
+                           "if A is None:\n    ok = True\nelse:\n"
+                           "    lhs = W(x).inner(y); rhs = x.inner(A(y))\n"
+                           "    lhs2 = W.inverse(y).inner(x); rhs2 = y.inner(B(x))\n"
+                           "    observed = [float(lhs - rhs), float(lhs2 - rhs2)]; expected = [0.0, 0.0]\n"
+                           "    ok = abs(lhs - rhs) <= 1e-9 * (1 + abs(lhs)) and abs(lhs2 - rhs2) <= 1e-9 * (1 + abs(lhs2))\n"
                            % ([0.0] * nd, [n * s for n, s in zip(shape, sides)], shape, name, L, pm,
                               rng.randint(0, 10 ** 6), tuple(shape)))
                 _probe(out, key, '<Wx,y> == <x,W.adjoint y> and the same for W.inverse: %s nlevels=%d pad_mode=%s shape=%s'
